@@ -103,6 +103,7 @@ class Run:
         self.req_objects = {}
         self.cur_channel = {}
         self._last_key = None
+        self.shared_md = {}
 
     # ------------------------------------------------------------------ helpers
     def request_desc(self, op):
@@ -141,6 +142,9 @@ class Run:
             kwargs["timeout"] = t
         if call.get("metadata"):
             kwargs["metadata"] = [tuple(kv) for kv in call["metadata"]]
+            if call.get("metadata_shared"):
+                # legal caller behaviour: the very same LIST object is passed to several calls
+                kwargs["metadata"] = self.shared_md.setdefault(call["metadata_shared"], kwargs["metadata"])
         return args, kwargs
 
     def message_instance(self, full_name, native):
